@@ -146,7 +146,7 @@ def L(*vals):
 
 STR_PATS_BASIC = ['a', 'ab', 'a*', '*a', '*a*', '*', 'ia', 'iA*', 'i*b', 'i*aB*', '', '"a"', "'*'", '"a\'', "i'a\"", '"', "i'"]
 STR_PATS_MORE = ['b*', '*b', '*ab*', 'ab*', '*ba', 'iab', '**', 'i*', 'i', '*a*b', 'a*b']
-REGEX_PATS = ['?a', '?ab', 'i?a', '?^a', '?b$']
+REGEX_PATS = ['?a', '?ab', 'i?a', '?^a', '?b$', 'i?^\\D+$', 'i?\\Sa', '?\\D']
 REGEX_REWRITE = ['?.*a', '?a.*', '?.*a.*', '?.*', '?.*.*', '?.*a|b', '?a|b.*', '?.*?a', '?a\\.*', '?.*+a', 'i?.*A',
                  # anchored wildcards are not redundant: `.` does not cross a line feed
                  '?^.*a', '?a.*$', '?^.*a.*$', '?^a.*', '?.*a$']
@@ -278,7 +278,8 @@ def families(tier='quick', seed=0):
             ('not A and not B', ('and', ('not', ('id', 'A')), ('not', ('id', 'B'))), ab),
             ('not A or not B', ('or', ('not', ('id', 'A')), ('not', ('id', 'B'))), ab),
             ('not A or not B or C', ('or', ('or', ('not', ('id', 'A')), ('not', ('id', 'B'))), ('id', 'C')), abc),
-            ('not (A or B) and C', ('and', ('not', ('or', ('id', 'A'), ('id', 'B'))), ('id', 'C')), abc)):
+            ('not (A or B) and C', ('and', ('not', ('or', ('id', 'A'), ('id', 'B'))), ('id', 'C')), abc),
+            ('not A and not B and not C', ('and', ('and', ('not', ('id', 'A')), ('not', ('id', 'B'))), ('not', ('id', 'C'))), abc)):
         add('condition', nm, {'idents': ids, 'cond': cond})
     # negation over one multi-entry mapping, both written orders (conjunction order is observable under not)
     add('condition', 'not {f,g}', {'idents': {'A': M((K('f'), S('a*')), (K('g'), S('>5')))}, 'cond': ('not', ('id', 'A'))})
@@ -381,6 +382,7 @@ def families(tier='quick', seed=0):
                                              'cond': ('or', ('or', ('and', ('id', 'A'), ('cmp', '==', ('int', 'g'), ('ci', 3))), ('id', 'B')), ('id', 'C'))})
     add('shake', 'A or B or C repeated needle', {'idents': {'A': M((K('f'), S('a*'))), 'B': M((K('f'), S('a*'))), 'C': M((K('f'), S('*b')))},
                                                  'cond': ('or', ('or', ('id', 'A'), ('id', 'B')), ('id', 'C'))})
+    add('modifier', '{not(f), not(g), h}', {'idents': {'A': M((K('f', 'not'), S('a')), (K('g', 'not'), S('b')), (K('h'), S('c')))}, 'cond': ('id', 'A')})
     # field names of several words, plain and under key modifiers
     add('modifier', 'multi-word keys', {'idents': {'A': M((K('Command Line'), S('a*')), (K('Event ID', 'str'), S('4*')))}, 'cond': ('id', 'A')})
     add('modifier', 'all(multi-word key)', {'idents': {'A': M((K('Command Line', 'all'), L(S('a*'), S('*b'))))}, 'cond': ('id', 'A')})
@@ -442,6 +444,7 @@ MUST = {'single/"a\'', 'single/i\'a"', 'single/"',
         'quant-ident/of(list,2)', 'quant-ident/not of(map,1)', 'quant-ident/of(seq1block,1)', 'quant-ident/of(seq1block,2)', 'quant-ident/all(seq1block)', 'cast-cond/int(f)>1', 'cast-cond/str(f)==str(g)', 'cast-cond/not flt(f)>=1.5',
         'regex-rewrite/?.*a', 'regex-rewrite/list', 'regex-rewrite/i?.*A', 'modifier/str(f) list', 'modifier/not(f) list', 'list-mixed/1,a',
         'list-mixed/>1,<5', 'list/ab*,*c,id', 'list/abc*,*c,?q', 'list-all/ab*,*c,id', 'list-of/ab*,*c,id|2', 'quant-short/all:nested3', 'quant-short/of2:nested3', 'quant-short/of3:nested3', 'cast-cond/1<int(f)', 'cast-cond/1.5>=flt(f)', 'cast-cond/not 2<=int(f)',
+        'regex/i?^\\D+$', 'regex/i?\\Sa', 'modifier/{not(f), not(g), h}',
         'modifier/multi-word keys', 'modifier/all(multi-word key)', 'modifier/int(multi-word key)'}
 
 
